@@ -27,7 +27,12 @@ func (e *E2eProcessingLatencyAggregate) UnmarshalJSON(b []byte) error {
 		return err
 	}
 
-	for _, p := range resp.Percentiles {
+	for i, p := range resp.Percentiles {
+		if p == nil {
+			// tolerate a null entry (malformed upstream)
+			p = make(map[string]float64)
+			resp.Percentiles[i] = p
+		}
 		p["min"] = p["value"]
 		p["max"] = p["value"]
 		p["average"] = p["value"]
